@@ -73,8 +73,6 @@ theorem parseDigits_natDigits (n : Nat) : parseDigits (natDigits n) = n := by
       simp [digitVal_digitChar (Nat.mod_lt n (by decide : 10 > 0))]
       omega
 
-def fracChars (frac : List (Fin 10)) : Str := frac.map (fun d => digitChar d.val)
-
 theorem fracChars_all_digit (frac : List (Fin 10)) : (fracChars frac).all isDigit = true := by
   induction frac with
   | nil => rfl
